@@ -198,7 +198,7 @@ func (v *Verifier) directEffectsX(fv *FuncVC, fn *ssa.Function, bodyOnly bool) *
 	}
 	// contract with explicit assigns: trust the declaration (checked by the frame obligation of that function)
 	if con := v.contracts[fn]; con != nil && con.HasAssigns && !bodyOnly {
-		for _, it := range con.Assigns {
+		for _, it := range fv.expandAssigns(con.Assigns, pkgOf(fn)) {
 			switch {
 			case it.All:
 				d.all = true
